@@ -3,7 +3,7 @@
 tier=$1; shift
 cd "$(dirname "$0")/.."; mkdir -p .work
 for s in "$@"; do
-  for p in $(cat tools/manifest/ENABLED); do
+  for p in ${PROPS:-$(cat tools/manifest/ENABLED)}; do
     t0=$(date +%s)
     VERIF_SEED=$s VERIF_NO_EVIDENCE=1 python3 tools/vcheck.py $p $tier > .work/sweep.$p.$s.$tier.log 2>&1
     rc=$?
